@@ -65,6 +65,20 @@ def directed_plans(tier):
             for tgt in (-1, -2):
                 plans.append({'family': fam, 'faults': {'rate': 0, 'kinds': []},
                               'ops': [{**base, 'op': prod}, {**base, 'op': mut, 't': tgt}, {**base, 'op': 'to_df', 't': -1}]})
+    # exhaustive short sequences over a small object: every ordered pair of operations (thorough: every ordered triple),
+    # each applied to the most recent result
+    names = [n for n, _ in WEIGHTS if n != 'size_recovery']
+    fam2 = {'roots': [dict(fam['roots'][0]), {**fam['roots'][0], 'rdm_uids': [21], 'descriptors': {'session': 's2'},
+                                              'rdm_desc': {'grp': {'values': ['a'], 'container': 'list'}, 'extra': {'values': ['x21'], 'container': 'list'}}}]}
+    for a in names:
+        for b in names:
+            if tier == 'thorough':
+                for c in names:
+                    plans.append({'family': fam2, 'faults': {'rate': 0, 'kinds': []},
+                                  'ops': [{**base, 'op': a, 'flag': True}, {**base, 'op': b, 't': -1, 'a': [2, 1, 4, 3, 0, 5]}, {**base, 'op': c, 't': -1, 'flag2': True}]})
+            else:
+                plans.append({'family': fam2, 'faults': {'rate': 0, 'kinds': []},
+                              'ops': [{**base, 'op': a, 'flag': True}, {**base, 'op': b, 't': -1, 'a': [2, 1, 4, 3, 0, 5]}]})
     return plans
 
 
